@@ -6,8 +6,8 @@
    x/hard is not modelled: the synced hard deposit of the earn module account
    is one integer per denom ([hval]); its growth by interest between operations
    is the environment operation [Accrue d v] whose new value [v] is recorded
-   from the implementation (side condition: not smaller than the current
-   value); a hard deposit adds exactly the amount, a hard withdrawal removes
+   from the implementation (side conditions: not smaller than the current
+   value, and zero when the position is empty); a hard deposit adds exactly the amount, a hard withdrawal removes
    min(amount, position).  Borrowing and repaying by third parties only changes
    the hard module account's bank balance ([HardFlow]).
    Definitions only. *)
@@ -187,13 +187,13 @@ Definition earn_withdraw (e : env) (s : state) (u d : nat) (x : Z) (strat : nat)
   | None => Err
   | Some b =>
       let s2 := with_sv s1 (mkS b (sdep (sv s1))) in
-      (* ShareIsDust on the remaining shares: total value already reduced,
-         vault record not yet updated *)
+      (* ShareIsDust on the remaining shares: the total value is already
+         reduced by the strategy withdrawal, the vault record not yet updated *)
       match convert_to_assets e s2 d (shr s u d - ws0) with
       | Fail => Err
       | Crash => Panic
       | Val rest =>
-          let ws := if rest =? 0 then shr s u d else ws0 in
+          let ws := if rest =? 0 then shr s u d else ws0 in   (* dust: remove the whole share balance *)
           if tot - ws <? 0 then Panic else             (* VaultShare.Sub panics *)
           let tot' := tot - ws in
           Ok (mkE (sv s2) (hval s2)
@@ -227,7 +227,9 @@ Definition step (e : env) (s : state) (o : op) : outcome state Z :=
   | EDeposit u d x st => if is_user e u then earn_deposit e s u d x st else Err
   | EWithdraw u d x st => if is_user e u then earn_withdraw e s u d x st else Err
   | Accrue d v =>
-      if Nat.eqb (vault_strat e d) 1 && (hval s d <=? v)
+      (* side conditions on the recorded value: interest never shrinks the
+         position, and an empty position earns nothing *)
+      if Nat.eqb (vault_strat e d) 1 && (hval s d <=? v) && (negb (hval s d =? 0) || (v =? 0))
       then Ok (mkE (sv s) (upd (hval s) d v) (vrec s) (shr s)) 0 else Err
   | HardFlow d delta =>
       let b := bal (sv s) in
